@@ -59,29 +59,81 @@ def verify_one(fqn, repo=None, reg=None, facts=None, solve_it=True, tier="quick"
     rec["deps"] = deps
     rec["deps_hash"] = hashlib.sha256(repr(sorted(deps.items())).encode()).hexdigest()[:16]
     if solve_it:
-        ax = eng.class_axioms()
-        for ob in eng.obligations:
-            if z3.is_true(ob.goal):
-                v, m, dt, be = "discharged", None, 0.0, "trivial"
-            else:
-                v, m, dt, be = solve.check(ax, ob.pc, ob.goal)
-                if v == "unknown":
-                    # one retry with a three times larger budget (verdicts must not flip under machine load)
-                    v, m, dt2, be = solve.check(ax, ob.pc, ob.goal, timeout_ms=3 * solve.Z3_TIMEOUT_MS)
-                    dt += dt2
-            o = {"name": ob.name, "kind": ob.kind, "clause": ob.clause, "verdict": v, "time": round(dt, 4),
-                 "backend": be, "path": ob.trace, "props": ob.props}
-            if tier == "thorough" and v == "discharged" and be != "trivial":
-                xv, xbe = solve.cross_check(ax, ob.pc, ob.goal)
-                o["cross"] = {"verdict": xv, "backend": xbe}
-            if v == "refuted":
-                o["model"] = solve.model_summary(m, getattr(ob, "locals_view", {}))
-                o["goal"] = str(ob.goal)[:2000]
-            if v == "unknown":
-                o["reason"] = str(m)
-            rec["obligations"].append(o)
+        rec["obligations"] = solve_all(eng, tier)
     rec["engine"] = eng
     return rec
+
+
+def solve_slice(eng, ax, obs, tier):
+    out = []
+    for ob in obs:
+        if z3.is_true(ob.goal):
+            v, m, dt, be = "discharged", None, 0.0, "trivial"
+        else:
+            v, m, dt, be = solve.check(ax, ob.pc, ob.goal)
+            if v == "unknown" and not os.environ.get("PYVC_NO_RETRY"):
+                # one retry with a three times larger budget (verdicts must not flip under machine load)
+                v, m, dt2, be = solve.check(ax, ob.pc, ob.goal, timeout_ms=3 * solve.Z3_TIMEOUT_MS)
+                dt += dt2
+        o = {"name": ob.name, "kind": ob.kind, "clause": ob.clause, "verdict": v, "time": round(dt, 4),
+             "backend": be, "path": ob.trace, "props": ob.props}
+        if tier == "thorough" and v == "discharged" and be != "trivial":
+            xv, xbe = solve.cross_check(ax, ob.pc, ob.goal)
+            o["cross"] = {"verdict": xv, "backend": xbe}
+        if v == "refuted":
+            o["model"] = solve.model_summary(m, getattr(ob, "locals_view", {}))
+            o["goal"] = str(ob.goal)[:2000]
+        if v == "unknown":
+            o["reason"] = str(m)
+        out.append(o)
+    return out
+
+
+def solve_all(eng, tier):
+    """solve the obligations of one function; large sets are split over forked children (same z3 context image)"""
+    ax = eng.class_axioms()
+    obs = eng.obligations
+    n = len(obs)
+    nproc = int(os.environ.get("PYVC_SOLVE_PROCS", "0")) or (8 if n > 300 else 4 if n > 80 else 1)
+    if nproc <= 1:
+        return solve_slice(eng, ax, obs, tier)
+    import tempfile
+    tmpdir = os.path.join(os.path.dirname(os.path.dirname(os.path.abspath(__file__))), ".cache", "tmp")
+    os.makedirs(tmpdir, exist_ok=True)
+    slices = [list(range(i, n, nproc)) for i in range(nproc)]
+    kids = []
+    for si, idxs in enumerate(slices):
+        path = os.path.join(tmpdir, "slice_%d_%d.json" % (os.getpid(), si))
+        pid = os.fork()
+        if pid == 0:
+            code = 0
+            try:
+                res = solve_slice(eng, ax, [obs[i] for i in idxs], tier)
+                with open(path, "w") as fh:
+                    json.dump(res, fh)
+            except BaseException:
+                traceback.print_exc()
+                code = 3
+            os._exit(code)
+        kids.append((pid, path, idxs))
+    out = [None] * n
+    failed = False
+    for pid, path, idxs in kids:
+        _, status = os.waitpid(pid, 0)
+        if status != 0 or not os.path.exists(path):
+            failed = True
+            continue
+        with open(path) as fh:
+            res = json.load(fh)
+        os.unlink(path)
+        for i, o in zip(idxs, res):
+            out[i] = o
+    if failed:
+        # a child died: fall back to solving the missing ones here
+        missing = [i for i in range(n) if out[i] is None]
+        for i, o in zip(missing, solve_slice(eng, ax, [obs[i] for i in missing], tier)):
+            out[i] = o
+    return out
 
 
 if __name__ == "__main__":
